@@ -10,6 +10,8 @@ package main
 // File hashing on both backends is compared with the reference digest of the bytes.
 
 import (
+	"archive/tar"
+	"archive/zip"
 	"bytes"
 	"context"
 	"crypto/md5"
@@ -84,6 +86,9 @@ type hCalc struct {
 	chunks  []int  // chunk sizes delivered by the reader (sum == len(content))
 	mode    string // ok | readerr | cancel
 	at      int    // the reader fails / the context is cancelled once `at` bytes were delivered
+	// the reader hands over its final bytes TOGETHER with io.EOF (allowed by the io.Reader contract:
+	// iotest.DataErrReader, compress/flate, archive readers do it)
+	eofWithData bool
 }
 
 type scriptReader struct {
@@ -122,6 +127,9 @@ func (r *scriptReader) Read(p []byte) (int, error) {
 	}
 	copy(p, r.c.content[r.pos:r.pos+n])
 	r.pos += n
+	if r.c.eofWithData && n > 0 && r.pos >= len(r.c.content) && (r.c.mode == "ok" || r.c.at >= len(r.c.content)) {
+		return n, io.EOF
+	}
 	return n, nil
 }
 
@@ -143,6 +151,7 @@ func genCalc(rnd *hx.Rand, maxLen int) hCalc {
 		c.chunks = append(c.chunks, k)
 		left -= k
 	}
+	c.eofWithData = rnd.Chance(30)
 	switch x := rnd.Intn(100); {
 	case x < 25:
 		c.mode, c.at = "readerr", rnd.Intn(n+1)
@@ -155,8 +164,8 @@ func genCalc(rnd *hx.Rand, maxLen int) hCalc {
 func hashMain(args []string) {
 	o := hx.ParseOpts(args)
 	rep := hx.NewReport("histories of 1..6 calculations on one hasher per algorithm (6 algorithms x {NewHashingAlgorithm, bespoke counting wrapper}); contents 0..48 bytes " +
-		"(thorough: also up to 2^20), random chunking with zero-length reads, outcome ok / reader error after k bytes / context cancelled after k bytes; " +
-		"file hashing on MemMapFs and OsFs. non-trivial = history with >=2 calculations of which at least one succeeds after a failed/cancelled one, or a multi-chunk content; " +
+		"(thorough: also up to 2^20), random chunking with zero-length reads and readers that hand over their final bytes together with io.EOF, outcome ok / reader error after k bytes / context cancelled after k bytes; " +
+		"file hashing on MemMapFs, OsFs and through the read-only zip (stored, deflated) and tar views. non-trivial = history with >=2 calculations of which at least one succeeds after a failed/cancelled one, or a multi-chunk content; " +
 		"distinct = (algorithm, history).")
 	drv, err := hx.StartDriver(o.Driver)
 	if err != nil {
@@ -210,7 +219,10 @@ func hashMain(args []string) {
 					}
 					res, err := hh.CalculateWithContext(ctx, &scriptReader{c: &c, cancel: cancel})
 					cancel()
-					descs = append(descs, fmt.Sprintf("%s(len=%d,chunks=%d,at=%d)", c.mode, len(c.content), len(c.chunks), c.at))
+					descs = append(descs, fmt.Sprintf("%s(len=%d,chunks=%d,at=%d,eofWithData=%v)", c.mode, len(c.content), len(c.chunks), c.at, c.eofWithData))
+					if c.eofWithData && len(c.content) > 0 {
+						rep.Hist("reader:final-bytes-with-EOF")
+					}
 					if err == nil {
 						if c.mode != "ok" && c.at < len(c.content) {
 							rep.Hist("interrupted-yet-succeeded")
@@ -306,6 +318,67 @@ func hashMain(args []string) {
 					rep.Fail(hx.Failure{Kind: "impl-violates-property", Key: "file-digest-mismatch", Case: fmt.Sprintf("CalculateFile#%d %s backend=%v len=%d", k, algo, ft, len(content)),
 						Expected: refDigest(algo, content), Observed: fmt.Sprint(got, err)})
 				}
+			}
+		}
+	}
+	// ---- file hashing through the read-only archive backends (zip stored / deflated, tar) ------
+	for i := 0; i < n/8+6; i++ {
+		content := make([]byte, 1+rnd.Intn(3000))
+		for j := range content {
+			content[j] = byte(rnd.U64())
+		}
+		if i%3 == 0 { // compressible
+			for j := range content {
+				content[j] = byte('a' + j%3)
+			}
+		}
+		mem := filesystem.NewFs(filesystem.InMemoryFS)
+		_ = mem.MkDir("/arch")
+		var zb bytes.Buffer
+		zw := zip.NewWriter(&zb)
+		fw, _ := zw.CreateHeader(&zip.FileHeader{Name: "stored.bin", Method: zip.Store})
+		_, _ = fw.Write(content)
+		fw, _ = zw.CreateHeader(&zip.FileHeader{Name: "deflated.bin", Method: zip.Deflate})
+		_, _ = fw.Write(content)
+		_ = zw.Close()
+		_ = mem.WriteFile("/arch/a.zip", zb.Bytes(), 0o644)
+		var tb bytes.Buffer
+		tw := tar.NewWriter(&tb)
+		_ = tw.WriteHeader(&tar.Header{Name: "plain.bin", Typeflag: tar.TypeReg, Mode: 0o644, Size: int64(len(content))})
+		_, _ = tw.Write(content)
+		_ = tw.Close()
+		_ = mem.WriteFile("/arch/a.tar", tb.Bytes(), 0o644)
+		algo := hx.Pick(rnd, hashAlgos)
+		type view struct {
+			kind string
+			name string
+		}
+		for _, v := range []view{{"zip", "stored.bin"}, {"zip", "deflated.bin"}, {"tar", "plain.bin"}} {
+			var vfs filesystem.ICloseableFS
+			var af filesystem.File
+			var err error
+			if v.kind == "zip" {
+				vfs, af, err = filesystem.NewZipFileSystem(mem, "/arch/a.zip", filesystem.NoLimits())
+			} else {
+				vfs, af, err = filesystem.NewTarFileSystem(mem, "/arch/a.tar", filesystem.NoLimits())
+			}
+			if err != nil {
+				rep.Fail(hx.Failure{Kind: "harness-error", Key: "archive-view", Detail: err.Error()})
+				continue
+			}
+			got, herr := vfs.FileHash(algo, v.name)
+			if herr != nil {
+				got, herr = vfs.FileHash(algo, "/"+v.name)
+			}
+			rep.Eval(fmt.Sprintf("file %s-view %s %s %x", v.kind, v.name, algo, content), true)
+			rep.Hist("file:" + v.kind + "-view:" + v.name)
+			if herr != nil || got != refDigest(algo, content) {
+				rep.Fail(hx.Failure{Kind: "impl-violates-property", Key: "file-digest-mismatch", Case: fmt.Sprintf("FileHash %s backend=%s-view entry=%s len=%d", algo, v.kind, v.name, len(content)),
+					Expected: refDigest(algo, content), Observed: fmt.Sprint(got, herr)})
+			}
+			_ = vfs.Close()
+			if af != nil {
+				_ = af.Close()
 			}
 		}
 	}
